@@ -149,8 +149,8 @@ def run_case(case, ctx):
 
 def negctl(e, rng):
     """Change the type of a supergate's root inside the recorded supergate: its wiring is then no longer that of the circuit."""
-    if e["exc"] or not e["L"]:
-        return []
+    if e["exc"] or not e["L"] or e.get("wide"):
+        return []       # wide circuits: the blocks belong to the unrecorded fan-in-limited circuit, the wiring clauses are not judged
     flip = {"and": "nand", "nand": "and", "or": "nor", "nor": "or", "xor": "xnor", "xnor": "xor", "not": "buf", "buf": "not"}
     c = copy.deepcopy(e)
     for sg in c["L"]:
